@@ -12,7 +12,7 @@ import json
 import os
 
 import vlib
-from checks import racelib
+from checks import brokerlib, c03, racelib
 
 
 def classify(scn, line):
@@ -94,6 +94,19 @@ def check(run, only=None):
               {"kind": "idpool", "min": head["min"], "max": head["max"],
                "calls": [{"op": e["op"], "i": e.get("i", 0)} for e in scn[1:line]],
                "trace": scn[:line], "rejected_line": line})
+    # the allocator's users: every identifier the writer holds belongs to a live outbound flow and every live flow holds its
+    # identifier - through retransmissions of PUBLISH and PUBREL, wrong answers, session ends (the pool is probed at quiescence)
+    wh = c03.gen(run, "c06w", ["s1"], ["m1", "m2"], 4)
+    wh = [h for h in wh if any(o["op"] == "deliver" for o in h) and any(o["op"] == "sweep" for o in h)]
+    wh = wh[:: max(1, len(wh) // (600 if thorough else 120))]
+    wscns = [c03.scenario(h, early=(i % 2 == 1)) for i, h in enumerate(wh)]
+    wtp, wcr = brokerlib.execute(run, wscns, "c06w", shards=12)
+    if wcr:
+        raise vlib.Inconclusive("broker driver died: %s" % wcr[0][2][-2000:])
+    wnev, wnscn, wval, wrej, wts = brokerlib.validate(run, "C06", wscns, wtp, v)
+    run.log("writer level: validated %d of %d delivery scripts (%d events)" % (wval, len(wscns), wnev))
+    validated += wval
+    tstates += wts
     # the allocator's only caller: an identifier taken for a recipient that vanishes while the publish is handled (its teardown
     # parked between leaving the local registry and losing its subscriptions) must come back - "never leak" at the writer
     rn, rparked, rnev, rval, rrej, rts = racelib.check_family(
@@ -109,6 +122,8 @@ def check(run, only=None):
                 "plus %d seeded random 40-call histories on ranges of 1-6 ids and %d long histories on 0/1..65535; "
                 "distinct = distinct call sequences; each is non-trivial (>= 5 calls)" % (plans, nrand, big),
         "events_validated": nev,
+        "writer_level": {"delivery_scripts": len(wscns), "events": wnev, "rejections": len(wrej),
+                         "rule": "TLC-generated QoS 1/2 delivery scripts with deadline expiries on a real node; BrokerTrace: identifiers held by the pool = identifiers of live outbound flows at every probe"},
         "vanishing_recipients": {"interleavings": rn, "parked_at_their_gate": rparked, "events": rnev, "rejections": rrej},
         "trace_spec_states": tstates,
         "rejections": len(rejected),
@@ -125,6 +140,8 @@ def replay(run, path):
     rp = json.load(open(path))
     if rp.get("kind") == "race":
         return racelib.replay(run, "C06", path)
+    if rp.get("kind") == "broker":
+        return brokerlib.replay(run, "C06", path)
     spath = os.path.join(run.scratch, "scenarios.ndjson")
     with open(spath, "w") as f:
         f.write(json.dumps({"min": rp["min"], "max": rp["max"], "calls": rp["calls"]}) + "\n")
